@@ -105,13 +105,16 @@ class Highlighter(object):
 
             if lineno > current_line:
                 diff = lineno - current_line
-                if diff > 1:
-                    lines += [""] * (diff - 1)
 
                 line += self._format_token(current_type, buffer.rstrip("\n"))
 
                 # New line
                 lines.append(line)
+
+                if diff > 1:
+                    # Lines without a token of their own come after it
+                    lines += [""] * (diff - 1)
+
                 line = ""
                 current_line = lineno
                 current_col = 0
